@@ -35,7 +35,7 @@ func zzStubShakeRead(d *sha3.State, out []byte) (int, error) {
 //zz:replace (*internal/sha3.State).Write set=stream1
 func zzStubShakeWrite(d *sha3.State, p []byte) (int, error) { return len(p), nil }
 
-//zz: prop=C04 tier=quick backend=bv use=stream1 timeout=120
+//zz: prop=C04 also=C14 tier=quick backend=bv use=stream1 timeout=120
 func ZZ_C04_PolyDeriveUniform_rejection_step_mode3() {
 	if !zzSymbolic() {
 		zzModelOnly() // the XOF stream is a stub: no native counterpart
